@@ -18,9 +18,10 @@ VARIABLES
   frozen,     \* number of items in the ancient store: blocks 0..frozen-1 are frozen
   snaps,      \* flat-state snapshots enabled (hash scheme only)
   snapDisk,   \* block whose state is the persistent snapshot layer
+  recov,      \* persisted snapshot recovery number (Nil = never written)
   crashes     \* number of crashes so far
 
-cvars == <<frozen, snaps, snapDisk, crashes>>
+cvars == <<frozen, snaps, snapDisk, recov, crashes>>
 allvars == <<vars, cvars>>
 
 (* main line: the first-born chain 1..C; the tree of this module is built by LinearTree *)
@@ -49,7 +50,7 @@ FlattenSnap ==
   /\ snapDisk' = hb
   /\ ev' = NoEv /\ res' = [op |-> "FlattenSnap", err |-> "none"] /\ gh' = [kb |-> {}, rx |-> {}, f1 |-> gh.f1]
   /\ UNCHANGED <<tree, scheme, known, hasState, durable, rcpt, canon, hb, hh, hs, txl, tail, cache>>
-  /\ UNCHANGED <<frozen, snaps, crashes>>
+  /\ UNCHANGED <<frozen, snaps, recov, crashes>>
 
 (* SetFinalized(canonical block f) + one freezer cycle: canonical blocks up to f move to the  *)
 (* ancient store; competing blocks at those heights and everything built on them is deleted  *)
@@ -61,7 +62,7 @@ Freeze(f) ==
   /\ frozen' = f + 1
   /\ ev' = NoEv /\ res' = [op |-> "Freeze", err |-> "none"] /\ gh' = [kb |-> {}, rx |-> {}, f1 |-> gh.f1]
   /\ UNCHANGED <<tree, scheme, hasState, durable, canon, hb, hh, hs, txl, tail, cache>>
-  /\ UNCHANGED <<snaps, snapDisk, crashes>>
+  /\ UNCHANGED <<snaps, snapDisk, recov, crashes>>
 
 (* rewindHead: walk down from the head until a block whose state is on disk is found, after   *)
 (* the block of the persistent snapshot layer has been passed (hash scheme with snapshots)    *)
@@ -84,7 +85,16 @@ CrashReopen ==
       rootBlk == IF scheme = "hash" /\ snaps THEN snapDisk ELSE Nil
       nhb     == IF repair THEN RewindTo(hb, rootBlk = Nil, rootBlk) ELSE hb
       wipe    == repair /\ Num(nhb) + 1 < frozen
+      (* the walk passed the block of the persistent snapshot layer: its number is persisted as  *)
+      (* recovery number; setupSnapshot keeps a snapshot that is ahead of the head only in       *)
+      (* recovery mode, otherwise a snapshot whose root is not the head's is rebuilt at the head *)
+      passed  == repair /\ rootBlk # Nil /\ rootBlk # 0 /\ rootBlk \in Anc(hb) /\ Num(rootBlk) >= Num(nhb)
+      nrecov  == IF passed THEN Num(snapDisk) ELSE recov
+      recover == nrecov # Nil /\ nrecov >= Num(nhb)
+      rebuild == snaps /\ snapDisk # nhb /\ ~recover          \* Tree.Rebuild also drops the recovery number
   IN /\ crashes' = crashes + 1
+     /\ recov' = IF rebuild THEN Nil ELSE nrecov
+     /\ snapDisk' = IF rebuild THEN nhb ELSE snapDisk
      /\ hasState' = durable \cup {0}
      /\ hb' = nhb
      /\ IF wipe
@@ -96,11 +106,11 @@ CrashReopen ==
         ELSE UNCHANGED <<known, rcpt, canon, hh, hs, frozen>>
      /\ cache' = [t \in 1..NT |-> Nil]
      /\ ev' = NoEv /\ res' = [op |-> "CrashReopen", err |-> "none"] /\ gh' = [kb |-> {}, rx |-> {}, f1 |-> gh.f1]
-     /\ UNCHANGED <<tree, scheme, durable, txl, tail, snaps, snapDisk>>
+     /\ UNCHANGED <<tree, scheme, durable, txl, tail, snaps>>
 
 CInitWith(c, s, sc, sn) ==
   /\ InitWith(LinearTree(c, s), sc)
-  /\ frozen = 0 /\ snaps = sn /\ snapDisk = 0 /\ crashes = 0
+  /\ frozen = 0 /\ snaps = sn /\ snapDisk = 0 /\ recov = Nil /\ crashes = 0
 
 (* ------------------------------ properties (C39) ------------------------------------- *)
 (* after every reopen (and from then on) *)
